@@ -498,20 +498,338 @@ theorem wrong_kek_v21 (h : CryptoLaws c) (cfg : Cfg) (wf : Spec.WF21 cfg) (kek' 
 
 /-! ## V2.0 -/
 
+/-- a V2.0 file with the certificate section `cs` and the trailing signature `sg` left abstract -/
+def file20 (c : CryptoOps) (cfg : Cfg) (hdr : ImageHdr) (cs sg : Bytes) : Bytes :=
+  let h := encodeImageHdr hdr
+  let pre := h ++ hmac256 c cfg.mac h ++ kwWrap c cfg.kek (cfg.dek ++ cfg.mac) ++ cfg.padding
+  pre ++ cs ++ buildSections c cfg.dek cfg.mac cfg.nonce (nonceCtr cfg.nonce + pre.length / 16 + cs.length / 16) cfg.sections ++ sg
+
+/-- the 208 bytes in front of the certificate section / boot sections of a V2.0 file -/
+def pre20 (c : CryptoOps) (cfg : Cfg) (hdr : ImageHdr) : Bytes :=
+  encodeImageHdr hdr ++ hmac256 c cfg.mac (encodeImageHdr hdr) ++ kwWrap c cfg.kek (cfg.dek ++ cfg.mac) ++ cfg.padding
+
+structure V20Facts (c : CryptoOps) (cfg : Cfg) (hdr : ImageHdr) (cs sg : Bytes) : Prop where
+  preLen : (pre20 c cfg hdr).length = 208
+  shape : ∃ rest, file20 c cfg hdr cs sg = pre20 c cfg hdr ++ cs ++ rest
+  len : (file20 c cfg hdr cs sg).length = 208 + cs.length + Spec.sectionsLen cfg.sections + sg.length
+  secMod : Spec.sectionsLen cfg.sections % 16 = 0
+  take96 : (file20 c cfg hdr cs sg).take 96 = encodeImageHdr hdr
+  hmacAt : Rom.slice (file20 c cfg hdr cs sg) 96 32 = hmac256 c cfg.mac (encodeImageHdr hdr)
+  kwAt : Rom.slice (file20 c cfg hdr cs sg) 128 72 = kwWrap c cfg.kek (cfg.dek ++ cfg.mac)
+  readHdr : Rom.readImageHdr (file20 c cfg hdr cs sg) = .ok hdr.toRom
+  dropStop : (file20 c cfg hdr cs sg).drop (208 + cs.length + Spec.sectionsLen cfg.sections) = sg
+  sections : Rom.readSections c cfg.dek cfg.mac cfg.nonce (file20 c cfg hdr cs sg)
+      (208 + cs.length + Spec.sectionsLen cfg.sections) ((file20 c cfg hdr cs sg).length / 16 + 1) (208 + cs.length)
+    = .ok (cfg.sections.map Spec.expectedSection)
+
+theorem v20_facts (h : CryptoLaws c) (cfg : Cfg) (hdr : ImageHdr) (cs sg : Bytes) (hok : HdrOk hdr)
+    (wdek : cfg.dek.length = 32) (wmac : cfg.mac.length = 32) (wpad : cfg.padding.length = 8)
+    (wsec : ∀ s ∈ cfg.sections, Spec.WFsection s) (hcs : cs.length % 16 = 0) : V20Facts c cfg hdr cs sg := by
+  have lH : (encodeImageHdr hdr).length = 96 := encodeImageHdr_length _ hok.nonce hok.padding
+  have ⟨lkw, _, _⟩ := keyBlob_eq h cfg.kek cfg.dek cfg.mac wdek wmac
+  have lpre : (pre20 c cfg hdr).length = 208 := by
+    simp only [pre20, List.length_append, lH, hmac256_length h, lkw, wpad]
+  have hfile : file20 c cfg hdr cs sg = pre20 c cfg hdr ++ cs ++
+      buildSections c cfg.dek cfg.mac cfg.nonce (nonceCtr cfg.nonce + (pre20 c cfg hdr ++ cs).length / 16) cfg.sections ++ sg := by
+    have : (pre20 c cfg hdr ++ cs).length / 16 = (pre20 c cfg hdr).length / 16 + cs.length / 16 := by
+      rw [List.length_append, lpre]; omega
+    rw [this, ← Nat.add_assoc]; rfl
+  generalize hbs : buildSections c cfg.dek cfg.mac cfg.nonce (nonceCtr cfg.nonce + (pre20 c cfg hdr ++ cs).length / 16) cfg.sections = bs at hfile
+  have ⟨lbs, lbs16⟩ : bs.length = Spec.sectionsLen cfg.sections ∧ Spec.sectionsLen cfg.sections % 16 = 0 := by
+    subst hbs; exact buildSections_length h _ _ _ _ wsec _
+  have hfile2 : file20 c cfg hdr cs sg = encodeImageHdr hdr ++ hmac256 c cfg.mac (encodeImageHdr hdr) ++
+      (kwWrap c cfg.kek (cfg.dek ++ cfg.mac) ++ cfg.padding) ++ cs ++ bs ++ sg ++ [] := by
+    rw [hfile]; simp only [pre20, List.append_assoc, List.append_nil]
+  obtain ⟨p1, p2, p3, p4, p5, p6, p7, p8, p9, p10⟩ := parts7 (encodeImageHdr hdr) (hmac256 c cfg.mac (encodeImageHdr hdr))
+    (kwWrap c cfg.kek (cfg.dek ++ cfg.mac) ++ cfg.padding) cs bs sg [] lH (hmac256_length h _ _)
+    (by simp only [List.length_append, lkw, wpad])
+  rw [← hfile2] at p1 p2 p3 p4 p5 p6 p7 p8 p9 p10
+  have hlen : (file20 c cfg hdr cs sg).length = 208 + cs.length + Spec.sectionsLen cfg.sections + sg.length := by
+    rw [p1, lbs]; simp
+  refine ⟨lpre, ⟨bs ++ sg, by rw [hfile]; simp only [List.append_assoc]⟩, hlen, lbs16, p2, p3, ?_, ?_, ?_, ?_⟩
+  · have : Rom.slice (file20 c cfg hdr cs sg) 128 72 = (Rom.slice (file20 c cfg hdr cs sg) 128 80).take 72 := by
+      simp [Rom.slice, List.take_take]
+    rw [this, p4, List.take_left' lkw]
+  · rw [hfile2]
+    simp only [List.append_assoc]
+    exact readImageHdr_encode _ hok _
+  · rw [hfile, ← lbs]
+    exact List.drop_left' (by simp only [List.length_append, lpre])
+  · have hrs := readSections_buildSections h cfg.dek cfg.mac cfg.nonce sg cfg.sections wsec (pre20 c cfg hdr ++ cs)
+      (by rw [List.length_append, lpre]; omega) ((file20 c cfg hdr cs sg).length / 16 + 1)
+      (by have := sections_length_le cfg.sections wsec; omega)
+    rw [hbs, ← hfile, List.length_append, lpre] at hrs
+    exact hrs
+
+
+/-- the header the ROM is expected to read from a V2.0 file (spec-side arithmetic) -/
+def hd20 (cfg : Cfg) (signed : Bool) : Rom.Hdr :=
+  { nonce := cfg.nonce, major := 2, minor := 0, flags := if signed then 8 else 4,
+    imageBlocks := Spec.bodyLen20 cfg signed / 16,
+    firstBootTagBlock := (208 + (if signed then 80 + cfg.certBlock.length else 0)) / 16,
+    firstBootSectionId := (cfg.sections.head?.map (·.uid)).getD 0,
+    offsetToCert := if signed then 288 else 0, headerBlocks := 6, keyBlobBlock := 8, keyBlobBlockCount := 5,
+    maxSectionMacCount := (if signed then 1 else 0) + (cfg.sections.map Spec.macCount).sum,
+    timestamp := cfg.timestamp, productVersion := cfg.productVersion, componentVersion := cfg.componentVersion,
+    buildNumber := cfg.buildNumber }
+
+theorem header20_facts (cfg : Cfg) (signed : Bool) (wf : Spec.WF20 cfg signed) :
+    HdrOk (cfg.header20 signed) ∧ (cfg.header20 signed).toRom = hd20 cfg signed := by
+  obtain ⟨wdek, wmac, wnonce, wpad, wts, wpv, wcv, wbn, wsg, wne, wsec, wlen, wmc⟩ := wf
+  have ⟨e2, e3⟩ := rawSize_sum_sections cfg.sections wsec
+  have huid := head_uid_lt _ wsec
+  cases signed
+  · have e1 : Spec.bodyLen20 cfg false = 208 + Spec.sectionsLen cfg.sections := by simp [Spec.bodyLen20]
+    rw [e1] at wlen
+    constructor
+    · constructor <;> simp only [Cfg.header20, Cfg.certSectLen20, e2, e3, headerKeysLen_eq, Sb2Consts.imageHeaderFmtSize,
+        Sb2Consts.hdrKeyBlobBlock, Sb2Consts.hdrKeyBlobBlockCount, Sb2Consts.v20FlagsUnsigned, Bool.false_eq_true, if_false] <;>
+        first | assumption | omega
+    · simp only [ImageHdr.toRom, Cfg.header20, Cfg.certSectLen20, hd20, e1, e2, e3, headerKeysLen_eq, Sb2Consts.imageHeaderFmtSize,
+        Sb2Consts.hdrKeyBlobBlock, Sb2Consts.hdrKeyBlobBlockCount, Sb2Consts.v20FlagsUnsigned, Bool.false_eq_true, if_false,
+        Nat.add_zero]
+  · have e1 : Spec.bodyLen20 cfg true = 208 + (80 + cfg.certBlock.length) + Spec.sectionsLen cfg.sections := by
+      simp [Spec.bodyLen20]
+    rw [e1] at wlen
+    constructor
+    · constructor <;> simp only [Cfg.header20, Cfg.certSectLen20, e2, e3, headerKeysLen_eq, Sb2Consts.imageHeaderFmtSize,
+        Sb2Consts.hdrKeyBlobBlock, Sb2Consts.hdrKeyBlobBlockCount, Sb2Consts.v20FlagsSigned, Sb2Consts.certSectionHmacSize,
+        if_true] <;> first | assumption | omega
+    · simp only [ImageHdr.toRom, Cfg.header20, Cfg.certSectLen20, hd20, e1, e2, e3, headerKeysLen_eq, Sb2Consts.imageHeaderFmtSize,
+        Sb2Consts.hdrKeyBlobBlock, Sb2Consts.hdrKeyBlobBlockCount, Sb2Consts.v20FlagsSigned, Sb2Consts.certSectionHmacSize,
+        if_true]
+
+
+theorem buildV20_unsigned (cfg : Cfg) :
+    buildV20 c cfg false = file20 c cfg (cfg.header20 false) [] [] := rfl
+
+theorem buildV20_signed (cfg : Cfg) :
+    buildV20 c cfg true = file20 c cfg (cfg.header20 true)
+      (buildCertSection c cfg.dek cfg.mac cfg.nonce (nonceCtr cfg.nonce + (pre20 c cfg (cfg.header20 true)).length / 16)
+        cfg.certBlock) cfg.signature := rfl
+
+theorem body20_file20 (cfg : Cfg) (signed : Bool) :
+    cfg.body20 c signed ++ [] = file20 c cfg (cfg.header20 signed)
+      (if signed then buildCertSection c cfg.dek cfg.mac cfg.nonce
+        (nonceCtr cfg.nonce + (pre20 c cfg (cfg.header20 signed)).length / 16) cfg.certBlock else []) [] := rfl
+
+theorem buildCertSection_length (h : CryptoLaws c) (dek mac nonce cert : Bytes) (ctr : Nat) :
+    (buildCertSection c dek mac nonce ctr cert).length = 80 + cert.length := by
+  simp only [buildCertSection, List.length_append, Crypto.xorBytes_length, encodeHdr_length, ksBlock_length h,
+    hmac256_length h]
+  omega
+
+/-- the certificate section of a signed V2.0 file as the ROM reads it -/
+theorem certSection_facts (h : CryptoLaws c) (dek mac nonce P cert rest cs file : Bytes) (lP : P.length = 208)
+    (wcert : Spec.certBlockOk cert) (hlen : cert.length / 16 < 2 ^ 32)
+    (hcs : cs = buildCertSection c dek mac nonce (nonceCtr nonce + P.length / 16) cert)
+    (hfile : file = P ++ cs ++ rest) :
+    Rom.slice file 224 32 = hmac c .sha256 mac (Rom.slice file 208 16) ∧
+    Rom.readHdr (xorBytes (Rom.slice file 208 16) (Rom.ksAt c dek nonce 208))
+      = .ok ⟨1, 0x8002, Spec.certSectionMark, cert.length / 16, 1⟩ ∧
+    Rom.certBlockLen file 288 = .ok cert.length ∧
+    Rom.slice file 288 cert.length = cert ∧
+    Rom.slice file 256 32 = hmac c .sha256 mac cert := by
+  generalize hhdr : (⟨Sb2Consts.tagTag, certSectionFlags, Sb2Consts.certSectionMark, cert.length / 16, 1⟩ : CmdHdr) = hdr
+  have hr : hdr.inRange = true := by
+    subst hhdr
+    simp [CmdHdr.inRange, Sb2Consts.tagTag, certSectionFlags, Sb2Consts.sectFlagCleartext, Sb2Consts.sectFlagLastSect,
+      Sb2Consts.certSectionMark]
+    omega
+  generalize heh : xorBytes (encodeHdr hdr) (ksBlock c dek nonce (nonceCtr nonce + P.length / 16)) = eh
+  have leh : eh.length = 16 := by subst heh; simp [encodeHdr_length, ksBlock_length h]
+  have hcs' : cs = eh ++ hmac256 c mac eh ++ hmac256 c mac cert ++ cert := by
+    rw [hcs]; unfold buildCertSection; simp only [hhdr, heh]
+  have lm1 := hmac256_length h mac eh
+  have lm2 := hmac256_length h mac cert
+  have F1 : Rom.slice file 208 16 = eh := by
+    have : file = P ++ eh ++ (hmac256 c mac eh ++ hmac256 c mac cert ++ cert ++ rest) := by
+      rw [hfile, hcs']; simp only [List.append_assoc]
+    rw [this]; exact slice_mid _ _ _ _ _ lP.symm leh.symm
+  have F2 : Rom.slice file 224 32 = hmac256 c mac eh := by
+    have : file = (P ++ eh) ++ hmac256 c mac eh ++ (hmac256 c mac cert ++ cert ++ rest) := by
+      rw [hfile, hcs']; simp only [List.append_assoc]
+    rw [this]; exact slice_mid _ _ _ _ _ (by simp only [List.length_append, lP, leh]) lm1.symm
+  have F3 : Rom.slice file 256 32 = hmac256 c mac cert := by
+    have : file = (P ++ eh ++ hmac256 c mac eh) ++ hmac256 c mac cert ++ (cert ++ rest) := by
+      rw [hfile, hcs']; simp only [List.append_assoc]
+    rw [this]; exact slice_mid _ _ _ _ _ (by simp only [List.length_append, lP, leh, lm1]) lm2.symm
+  have hfile4 : file = (P ++ eh ++ hmac256 c mac eh ++ hmac256 c mac cert) ++ cert ++ rest := by
+    rw [hfile, hcs']; simp only [List.append_assoc]
+  have l4 : 288 = (P ++ eh ++ hmac256 c mac eh ++ hmac256 c mac cert).length := by
+    simp only [List.length_append, lP, leh, lm1, lm2]
+  have F4 : Rom.slice file 288 cert.length = cert := by
+    rw [hfile4]; exact slice_mid _ _ _ _ _ l4 rfl
+  have F5 : Rom.certBlockLen file 288 = .ok cert.length := by
+    rw [hfile4]; exact certBlockLen_embed _ _ _ wcert 288 l4
+  have F6 : xorBytes eh (Rom.ksAt c dek nonce 208) = encodeHdr hdr := by
+    rw [ksAt_eq_ksBlock, ← heh, lP]
+    exact Crypto.xorBytes_cancel _ _ (by simp [encodeHdr_length, ksBlock_length h])
+  have F7 : Rom.readHdr (encodeHdr hdr) = .ok ⟨1, 0x8002, Spec.certSectionMark, cert.length / 16, 1⟩ := by
+    have := readHdr_encodeHdr hdr hr []
+    rw [List.append_nil] at this
+    rw [this, ← hhdr]
+    rfl
+  refine ⟨?_, ?_, F5, F4, ?_⟩
+  · rw [F2, F1]; rfl
+  · rw [F1, F6, F7]
+  · rw [F3]; rfl
+
 -- INTERFACE
 theorem body20_length (h : CryptoLaws c) (cfg : Cfg) (signed : Bool) (wf : Spec.WF20 cfg signed) :
     (cfg.body20 c signed).length = Spec.bodyLen20 cfg signed := by
-  sorry
+  have ⟨hok, hrom⟩ := header20_facts cfg signed wf
+  obtain ⟨wdek, wmac, wnonce, wpad, wts, wpv, wcv, wbn, wsg, wne, wsec, wlen, wmc⟩ := wf
+  have e : (cfg.body20 c signed).length = (cfg.body20 c signed ++ []).length := by rw [List.append_nil]
+  rw [e, body20_file20]
+  cases signed
+  · simp only [Bool.false_eq_true, if_false]
+    rw [(v20_facts h cfg _ [] [] hok wdek wmac wpad wsec (by simp)).len]
+    simp [Spec.bodyLen20]
+  · have ⟨wcert, _⟩ := wsg rfl
+    have := certBlockOk_mod _ wcert
+    simp only [if_true]
+    rw [(v20_facts h cfg _ _ [] hok wdek wmac wpad wsec (by rw [buildCertSection_length h]; omega)).len,
+      buildCertSection_length h]
+    simp [Spec.bodyLen20]
+
+
+theorem romV20_unsigned (h : CryptoLaws c) (cfg : Cfg) (wf : Spec.WF20 cfg false) :
+    Rom.romV20 c cfg.kek (buildV20 c cfg false) = .ok (Spec.expected20 cfg false) := by
+  have ⟨hok, hrom⟩ := header20_facts cfg false wf
+  obtain ⟨wdek, wmac, wnonce, wpad, wts, wpv, wcv, wbn, wsg, wne, wsec, wlen, wmc⟩ := wf
+  obtain ⟨lpre, -, flen, smod, ftake, fhmac, fkw, fread, fdrop, fsec⟩ :=
+    v20_facts h cfg (cfg.header20 false) [] [] hok wdek wmac wpad wsec (by simp)
+  rw [buildV20_unsigned]
+  generalize hfile : file20 c cfg (cfg.header20 false) [] [] = file at *
+  rw [hrom] at fread
+  simp only [List.length_nil, Nat.add_zero] at flen fdrop fsec
+  generalize hhd : hd20 cfg false = hd at fread
+  have ⟨g1, g2, g3, g4, g6, g7, g8, g9, g10, g11⟩ : hd.major = 2 ∧ hd.minor = 0 ∧ hd.flags = 4 ∧
+      hd.headerBlocks = 6 ∧ hd.keyBlobBlock = 8 ∧ hd.keyBlobBlockCount = 5 ∧
+      hd.firstBootTagBlock = (208 + 0) / 16 ∧
+      hd.imageBlocks = Spec.bodyLen20 cfg false / 16 ∧ hd.nonce = cfg.nonce ∧
+      hd.firstBootSectionId = (cfg.sections.head?.map (·.uid)).getD 0 := by
+    subst hhd; exact ⟨rfl, rfl, rfl, rfl, rfl, rfl, rfl, rfl, rfl, rfl⟩
+  have hbl : Spec.bodyLen20 cfg false = 208 + Spec.sectionsLen cfg.sections := by simp [Spec.bodyLen20]
+  have hstop : Spec.bodyLen20 cfg false / 16 * 16 = 208 + Spec.sectionsLen cfg.sections := by omega
+  have hm : Rom.slice file 96 32 = hmac c .sha256 cfg.mac (file.take 96) := by rw [fhmac, ftake]; rfl
+  unfold Rom.romV20
+  rw [fread]
+  simp only [g1, g2, g3, g4, g6, g7, g8, g9, g10, g11, Spec.imageHeaderSize, Spec.macSize, Spec.flagUnsignedV20, hstop,
+    Nat.reduceMul, Nat.reduceAdd]
+  rw [if_neg (by omega), if_neg (by omega), readKeys_ok h cfg.kek cfg.dek cfg.mac file hd g6 g7 (by omega) fkw wdek wmac]
+  simp only []
+  rw [if_neg (fun hne => hne hm), if_neg (by omega), if_pos trivial, if_neg (by omega), fsec]
+  obtain ⟨s, rest, hss⟩ : ∃ s rest, cfg.sections = s :: rest := by
+    cases hc : cfg.sections with
+    | nil => exact absurd hc wne
+    | cons s rest => exact ⟨s, rest, rfl⟩
+  have huid : (Spec.expectedSection s).uid = ((cfg.sections.head?).map (·.uid)).getD 0 := by
+    rw [hss]; rfl
+  simp only [hss, List.map_cons]
+  rw [if_neg (by rw [huid, hss]; simp), ← hss, fdrop]
+  subst hhd
+  simp only [Rom.mkContent, Spec.expected20, hd20, hss, List.map_cons, hbl, Bool.false_eq_true, if_false, Nat.add_zero]
+
+
+theorem romV20_signed (h : CryptoLaws c) (cfg : Cfg) (wf : Spec.WF20 cfg true) :
+    Rom.romV20 c cfg.kek (buildV20 c cfg true) = .ok (Spec.expected20 cfg true) := by
+  have ⟨hok, hrom⟩ := header20_facts cfg true wf
+  obtain ⟨wdek, wmac, wnonce, wpad, wts, wpv, wcv, wbn, wsg, wne, wsec, wlen, wmc⟩ := wf
+  obtain ⟨wcert, wsig⟩ := wsg rfl
+  have cmod := certBlockOk_mod _ wcert
+  have hbl : Spec.bodyLen20 cfg true = 288 + cfg.certBlock.length + Spec.sectionsLen cfg.sections := by
+    simp [Spec.bodyLen20]; omega
+  rw [buildV20_signed]
+  generalize hcs : buildCertSection c cfg.dek cfg.mac cfg.nonce
+    (nonceCtr cfg.nonce + (pre20 c cfg (cfg.header20 true)).length / 16) cfg.certBlock = cs
+  have lcs : cs.length = 80 + cfg.certBlock.length := by subst hcs; exact buildCertSection_length h _ _ _ _ _
+  obtain ⟨lpre, ⟨rest, hshape⟩, flen, smod, ftake, fhmac, fkw, fread, fdrop, fsec⟩ :=
+    v20_facts h cfg (cfg.header20 true) cs cfg.signature hok wdek wmac wpad wsec (by omega)
+  obtain ⟨c1, c2, c3, c4, c5⟩ := certSection_facts h cfg.dek cfg.mac cfg.nonce _ cfg.certBlock rest cs _ lpre wcert
+    (by omega) hcs.symm hshape
+  generalize hfile : file20 c cfg (cfg.header20 true) cs cfg.signature = file at *
+  rw [hrom] at fread
+  rw [lcs] at flen fdrop fsec
+  rw [show 208 + (80 + cfg.certBlock.length) = 288 + cfg.certBlock.length by omega] at flen fdrop fsec
+  have lsig : 0 < cfg.signature.length := List.length_pos_iff.2 wsig
+  generalize hhd : hd20 cfg true = hd at fread
+  have ⟨g1, g2, g3, g4, g5, g6, g7, g8, g9, g10, g11⟩ : hd.major = 2 ∧ hd.minor = 0 ∧ hd.flags = 8 ∧
+      hd.headerBlocks = 6 ∧ hd.offsetToCert = 288 ∧ hd.keyBlobBlock = 8 ∧ hd.keyBlobBlockCount = 5 ∧
+      hd.firstBootTagBlock = (208 + (80 + cfg.certBlock.length)) / 16 ∧
+      hd.imageBlocks = Spec.bodyLen20 cfg true / 16 ∧ hd.nonce = cfg.nonce ∧
+      hd.firstBootSectionId = (cfg.sections.head?.map (·.uid)).getD 0 := by
+    subst hhd; exact ⟨rfl, rfl, rfl, rfl, rfl, rfl, rfl, rfl, rfl, rfl, rfl⟩
+  have hstop : Spec.bodyLen20 cfg true / 16 * 16 = 288 + cfg.certBlock.length + Spec.sectionsLen cfg.sections := by omega
+  have hstart : (208 + (80 + cfg.certBlock.length)) / 16 * 16 = 288 + cfg.certBlock.length := by omega
+  have hm : Rom.slice file 96 32 = hmac c .sha256 cfg.mac (file.take 96) := by rw [fhmac, ftake]; rfl
+  generalize hsh : (⟨1, 0x8002, Spec.certSectionMark, cfg.certBlock.length / 16, 1⟩ : Rom.RawHdr) = sh at c2
+  have ⟨s1, s2, s3, s4⟩ : sh.tag = 1 ∧ sh.flags = 0x8002 ∧ sh.address = Spec.certSectionMark ∧
+      sh.count = cfg.certBlock.length / 16 := by
+    subst hsh; exact ⟨rfl, rfl, rfl, rfl⟩
+  unfold Rom.romV20
+  rw [fread]
+  simp only [g1, g2, g3, g4, g5, g6, g7, g8, g9, g10, g11, Spec.imageHeaderSize, Spec.macSize, Spec.flagUnsignedV20,
+    Spec.flagSigned, hstop, hstart, Nat.reduceMul, Nat.reduceAdd]
+  rw [if_neg (by omega), if_neg (by omega), readKeys_ok h cfg.kek cfg.dek cfg.mac file hd g6 g7 (by omega) fkw wdek wmac]
+  simp only []
+  rw [if_neg (fun hne => hne hm), if_neg (by omega), if_neg (by omega), if_pos trivial, if_neg (by omega),
+    if_neg (fun hne => hne c1), c2]
+  simp only [s1, s2, s3, s4, Spec.tagTag, Spec.sectCleartext, Spec.sectLast]
+  rw [if_neg (by simp), if_neg (by simp), c3]
+  simp only []
+  rw [if_neg (by omega), if_neg (by omega), c4, if_neg (fun hne => hne c5), if_neg (by omega), fsec]
+  obtain ⟨s, rest', hss⟩ : ∃ s rest, cfg.sections = s :: rest := by
+    cases hc : cfg.sections with
+    | nil => exact absurd hc wne
+    | cons s rest => exact ⟨s, rest, rfl⟩
+  have huid : (Spec.expectedSection s).uid = ((cfg.sections.head?).map (·.uid)).getD 0 := by
+    rw [hss]; rfl
+  simp only [hss, List.map_cons]
+  rw [if_neg (by rw [huid, hss]; simp), ← hss, fdrop]
+  subst hhd
+  simp only [Rom.mkContent, Spec.expected20, hd20, hss, List.map_cons, hbl, if_true]
+
+
+theorem wrong_kek_file20 (cfg : Cfg) (hdr : ImageHdr) (cs sg : Bytes) (F : V20Facts c cfg hdr cs sg)
+    (hmaj : hdr.major = 2) (hmin : hdr.minor = 0) (hhb : hdr.headerBlocks = 6) (hkb : hdr.keyBlobBlock = 8)
+    (hkc : hdr.keyBlobBlockCount = 5) (kek' : Bytes) (hk : kek' ≠ cfg.kek) :
+    Rom.romV20 c kek' (file20 c cfg hdr cs sg) = .error .badKeyBlob ∨ Break c := by
+  obtain ⟨lpre, -, flen, smod, ftake, fhmac, fkw, fread, fdrop, fsec⟩ := F
+  generalize hfile : file20 c cfg hdr cs sg = file at *
+  generalize hhd : hdr.toRom = hd at fread
+  have ⟨g1, g2, g4, g6, g7⟩ : hd.major = 2 ∧ hd.minor = 0 ∧ hd.headerBlocks = 6 ∧ hd.keyBlobBlock = 8 ∧
+      hd.keyBlobBlockCount = 5 := by
+    subst hhd; exact ⟨hmaj, hmin, hhb, hkb, hkc⟩
+  rcases readKeys_wrong cfg.kek kek' cfg.dek cfg.mac file hd g6 g7 (by omega) fkw hk with hr | hb
+  · left
+    unfold Rom.romV20
+    rw [fread]
+    simp only [g1, g2, g4, Spec.imageHeaderSize]
+    rw [if_neg (by omega), if_neg (by omega), hr]
+  · exact Or.inr hb
 
 -- INTERFACE
 theorem romV20_buildV20 (h : CryptoLaws c) (cfg : Cfg) (signed : Bool) (wf : Spec.WF20 cfg signed) :
     Rom.romV20 c cfg.kek (buildV20 c cfg signed) = .ok (Spec.expected20 cfg signed) := by
-  sorry
+  cases signed
+  · exact romV20_unsigned h cfg wf
+  · exact romV20_signed h cfg wf
 
 -- INTERFACE
 theorem wrong_kek_v20 (h : CryptoLaws c) (cfg : Cfg) (signed : Bool) (wf : Spec.WF20 cfg signed) (kek' : Bytes)
     (hk : kek' ≠ cfg.kek) :
     Rom.romV20 c kek' (buildV20 c cfg signed) = .error .badKeyBlob ∨ Break c := by
-  sorry
+  have ⟨hok, hrom⟩ := header20_facts cfg signed wf
+  obtain ⟨wdek, wmac, wnonce, wpad, wts, wpv, wcv, wbn, wsg, wne, wsec, wlen, wmc⟩ := wf
+  cases signed
+  · rw [buildV20_unsigned]
+    exact wrong_kek_file20 cfg _ _ _ (v20_facts h cfg _ [] [] hok wdek wmac wpad wsec (by simp)) rfl rfl rfl rfl rfl kek' hk
+  · have ⟨wcert, _⟩ := wsg rfl
+    have := certBlockOk_mod _ wcert
+    rw [buildV20_signed]
+    exact wrong_kek_file20 cfg _ _ _ (v20_facts h cfg _ _ _ hok wdek wmac wpad wsec
+      (by rw [buildCertSection_length h]; omega)) rfl rfl rfl rfl rfl kek' hk
 
 end SpsdkVerif.Sb2
